@@ -60,6 +60,11 @@ type handler1 struct {
 	// (it is called from both receive loops).
 	topicIDMutex      sync.Mutex
 	topicIDsExhausted bool
+
+	// snSendMutex guards pktBuffer and serializes the packets sent to the
+	// client with the changes of the state which decide whether a packet
+	// is sent or buffered (snSend is called from both receive loops).
+	snSendMutex sync.Mutex
 }
 
 const (
@@ -555,9 +560,17 @@ func (h *handler1) handleConnect(ctx context.Context, snConnect *snPkts1.Connect
 		return h.snSend(snPkts1.NewConnack(snPkts1.RC_NOT_SUPPORTED))
 	}
 
-	if h.state.Get() == util.StateAwake {
+	// CONNECT in the asleep and awake states does not start a new
+	// connection, it only signalizes client's will to transition to the
+	// active state (see doc/specification-interpretation.md).
+	if state := h.state.Get(); state == util.StateAwake || state == util.StateAsleep {
+		h.snSendMutex.Lock()
+		defer h.snSendMutex.Unlock()
 		h.setState(util.StateActive)
-		return h.snSend(snPkts1.NewConnack(snPkts1.RC_ACCEPTED))
+		if err := h.snWrite(snPkts1.NewConnack(snPkts1.RC_ACCEPTED)); err != nil {
+			return err
+		}
+		return h.snFlush()
 	}
 
 	// The MQTT-SN specification does not explicitly forbid zero keepalive
@@ -832,15 +845,20 @@ func (h *handler1) handleMqttSn(ctx context.Context, pkt snPkts.Packet) error {
 	// Client PING transaction (going AWAKE or just a keepalive).
 	case *snPkts1.Pingreq:
 		if h.state.Get() == util.StateAsleep {
-			// Must be set before snSend otherwise the packets will be queued...
+			// The buffered packets and PINGRESP are sent in one
+			// piece: packets from the MQTT broker arriving in the
+			// meantime wait and are buffered for the next wake-up.
+			h.snSendMutex.Lock()
+			defer h.snSendMutex.Unlock()
 			h.setState(util.StateAwake)
-			for _, m2 := range h.pktBuffer {
-				if err := h.snSend(m2); err != nil {
-					return err
-				}
+			if err := h.snFlush(); err != nil {
+				return err
 			}
-			h.pktBuffer = nil
-			return h.snSend(snPkts1.NewPingresp())
+			err := h.snWrite(snPkts1.NewPingresp())
+			// The client returns to the asleep state when it
+			// receives PINGRESP.
+			h.setState(util.StateAsleep)
+			return err
 		} else {
 			mqPkt := mqPkts.NewControlPacket(mqPkts.Pingreq).(*mqPkts.PingreqPacket)
 			return h.mqttSend(mqPkt)
@@ -864,12 +882,16 @@ func (h *handler1) handleMqttSn(ctx context.Context, pkt snPkts.Packet) error {
 				cancelPinger := h.startSleepPinger(ctx)
 				time.AfterFunc(time.Duration(snPkt.Duration)*time.Second, cancelPinger)
 			}
-			h.pktBuffer = nil
-			m2 := snPkts1.NewDisconnect(0)
-			if err := h.snSend(m2); err != nil {
+			// The reply is sent (not buffered, even if the client
+			// is already asleep and just repeats or prolongs the
+			// sleep) and the state is changed in one piece, so no
+			// packet from the MQTT broker can slip in between.
+			// The packets already buffered are kept.
+			h.snSendMutex.Lock()
+			defer h.snSendMutex.Unlock()
+			if err := h.snWrite(snPkts1.NewDisconnect(0)); err != nil {
 				return err
 			}
-			// Must be set after snSend otherwise the packet will be queued...
 			h.setState(util.StateAsleep)
 			return nil
 		}
@@ -940,12 +962,33 @@ func (h *handler1) startSleepPinger(ctx context.Context) context.CancelFunc {
 }
 
 func (h *handler1) snSend(pkt snPkts.Packet) error {
+	h.snSendMutex.Lock()
+	defer h.snSendMutex.Unlock()
+
 	if h.state.Get() == util.StateAsleep {
 		h.log.Debug("Queued %v", pkt)
 		h.pktBuffer = append(h.pktBuffer, pkt)
 		// TODO: Potentional serialization errors will be delayed!
 		return nil
 	}
+	return h.snWrite(pkt)
+}
+
+// snFlush sends the packets buffered for a sleeping client.
+// You must acquire h.snSendMutex before calling this function!
+func (h *handler1) snFlush() error {
+	for _, pkt := range h.pktBuffer {
+		if err := h.snWrite(pkt); err != nil {
+			return err
+		}
+	}
+	h.pktBuffer = nil
+	return nil
+}
+
+// snWrite sends a packet to the client regardless of its state.
+// You must acquire h.snSendMutex before calling this function!
+func (h *handler1) snWrite(pkt snPkts.Packet) error {
 	h.log.Debug("<- %v", pkt)
 	buf, err := pkt.Pack()
 	if err != nil {
